@@ -493,39 +493,33 @@ def ang_diff(a, b):
     return min(d, 2 * math.pi - d)
 
 
-def band(m, v):
-    """band of v in the range (-m, m) cut at +-m/3: 0 = upper third ... ; None = outside or on a line; 'near' = too close to call"""
-    for line in (m, m / 3, -m / 3, -m):
-        if abs(v - line) < 1e-6:
-            return None if abs(v - line) == 0.0 or True else "near"
-    if m / 3 < v < m:
-        return 0
-    if -m / 3 < v < m / 3:
-        return 1
-    if -m < v < -m / 3:
-        return 2
-    return None
+def expected_area(div, mx, my, x, y, exact):
+    """index of the area of the ego-frame point (x, y) as documented: 3 * (y band) + (x band), bands = thirds of (-max, max) from the
+    top, all inequalities strict; None outside and on a grid line.  'skip' = too close to a line to be judged (the implementation's
+    inner lines are the binary64 neighbours of the thirds; map-frame positions carry rounding noise)."""
+    from fractions import Fraction as F
 
+    X, Y, MX, MY = F(x), F(y), F(mx), F(my)
+    for M, V, cut in ((MX, X, div >= 3), (MY, Y, div == 9)):
+        lines = [M, -M] + ([M / 3, -M / 3] if cut else [])
+        for ln in lines:
+            inexact = F(float(ln)) != ln
+            if abs(V - ln) < F(1, 10 ** 6) and (inexact or not exact):
+                return "skip"
 
-def expected_area(div, mx, my, x, y):
-    """index of the area of (x, y) as documented (strictly inside one cell), None outside / on a grid line;
-    'skip' when within 1e-6 of a line but not on it (binary64 thirds)"""
-    def near(m, v, lines):
-        return any(0 < abs(v - l) < 1e-6 for l in lines)
-    xl = [mx, -mx] + ([mx / 3, -mx / 3] if div >= 3 else [])
-    yl = [my, -my] + ([my / 3, -my / 3] if div == 9 else [])
-    if near(mx, x, xl) or near(my, y, yl):
-        return "skip"
-    on_line = any(x == l for l in xl if abs(l) != mx or True) or any(y == l for l in yl)
-    if on_line and (mx / 3 * 3 != mx):
-        return "skip"       # the third is not a binary64 number: a point cannot be exactly on it
-    if not (-mx < x < mx and -my < y < my):
-        return None
-    bx = 0 if div == 1 else band(mx, x)
-    by = 0 if div != 9 else band(my, y)
+    def band(M, V, cut):
+        if not (-M < V < M):
+            return None
+        if not cut:
+            return 0
+        if V == M / 3 or V == -M / 3:
+            return None
+        return 0 if V > M / 3 else (1 if V > -M / 3 else 2)
+
+    bx, by = band(MX, X, div >= 3), band(MY, Y, div == 9)
     if bx is None or by is None:
         return None
-    return {1: 0, 3: bx, 9: 3 * by + bx}[div]
+    return 3 * by + bx if div == 9 else bx
 
 
 def close(a, b, tol):
@@ -582,7 +576,7 @@ def oracle(case, obs):
         ref = er if er is not None else gr
         so = spec.get((s, fn_, ref["uuid"]))
         if so is not None:
-            want = expected_area(case["div"], mx, my, so["pos"][0], so["pos"][1])
+            want = expected_area(case["div"], mx, my, so["pos"][0], so["pos"][1], case["frame"] == "base_link")
             for side, r in (("ground_truth", gr), ("estimation", er)):
                 if r is not None and want != "skip" and r["area"] != want:
                     return (f"row pair {k} {side}: area {r['area']} but ({so['pos'][0]}, {so['pos'][1]}) lies in area {want} of the "
